@@ -133,7 +133,7 @@ Inductive fd := FdFile (ino : nat) | FdDir (p : str).
 
 Definition fs_open_read (p : str) (f : fs) : (fd + errno) :=
   match lookup f p with
-  | None => inr ENOENT
+  | None => inr (missing_errno p f)
   | Some NDir => inl (FdDir p)
   | Some (NFile i) => if f_readable (get_file f i) then inl (FdFile i) else inr EACCES
   | Some (NLink _ _) => inr ENOENT
